@@ -484,7 +484,8 @@ class Engine:
             if off in o.ptrs: return o.ptrs[off]
             bs = o.data[off:off + 8]
             if all(b == 0 for b in bs): return NULL
-            raise Unsupported(f"load of non-pointer bytes as pointer from {o.name}+{off}")
+            # bytes that were never stored as a pointer (integers, junk, another union alternative) are used as a pointer
+            raise Violation("wild-pointer-load", f"non-pointer bytes loaded as a pointer from {o.name}+{off}", list(st.pc))
         n = sizeof(s.m, ty); bs = s.load_bytes(st, p, n)
         for k, b in enumerate(bs):
             if b is None:
